@@ -721,7 +721,7 @@ def drop_initializers(ap: dict, trace: list) -> list:
     return [e for e in trace if not (e[0] == "emit" and e[1] in inits)]
 
 
-INTERNAL_FACETS = ("graph_topo", "args_of", "scope_of", "scope_own")
+INTERNAL_FACETS = ("graph_topo", "args_of", "scope_of", "scope_own", "owner")
 
 
 def observe_internals(R: Real) -> dict:
@@ -776,7 +776,11 @@ def observe_internals(R: Real) -> dict:
     def f_scope_own():
         return sorted([gid[g], [vid(n) for n in lst]] for g, lst in b.scope_own.items())
 
-    for name, fn in (("graph_topo", f_graph_topo), ("args_of", f_args_of), ("scope_of", f_scope_of), ("scope_own", f_scope_own)):
+    def f_owner():
+        # `scope_tree.subgraph_owner` (round 10; theorem `owner_unique`): graph id -> id of the node holding it
+        return sorted([gid[g], vid(n)] for g, n in b.scope_tree.subgraph_owner.items())
+
+    for name, fn in (("graph_topo", f_graph_topo), ("args_of", f_args_of), ("scope_of", f_scope_of), ("scope_own", f_scope_own), ("owner", f_owner)):
         try:
             out["facets"][name] = fn()
         except Exception as e:  # noqa: BLE001
@@ -870,6 +874,7 @@ def model_facets(m: dict) -> dict:
         "args_of": sorted([g, a] for g, a in m["args_of"]),
         "scope_of": sorted([v, g] for v, g in m["scope_of"]),
         "scope_own": sorted([g, l] for g, l in m["scope_own"]),
+        "owner": sorted([g, n] for g, n in m.get("owner", [])),
         "trace": [[k, x] for k, x in m["trace"]],
     }
 
